@@ -213,4 +213,64 @@ pub proof fn lemma_clean_eof_means_boundary(s: Seq<u8>)
     lemma_fold_initial(s);
 }
 
+
+/// abstract outcome of one `receive` call
+pub enum Outcome { Resp(RespB), Closed, Invalid, UnexpectedEof, IoError }
+
+/// THE postcondition shared by the blocking and the asynchronous `receive` (C02 C03 C09 C10): `s` = bytes pending before
+/// the call + bytes received during the call, `rest` = bytes pending after it, `eof` = the last read of the call
+/// delivered 0 bytes.
+pub open spec fn recv_ok(s: Seq<u8>, o: Outcome, rest: Seq<u8>, eof: bool) -> bool {
+    match o {
+        Outcome::Resp(r) => spec_parse_one(s) == FoldB::Done(r, rest),
+        Outcome::Closed => eof && s.len() == 0,
+        Outcome::Invalid => spec_parse_one(s) is Invalid,
+        Outcome::UnexpectedEof => eof && (spec_parse_one(s) matches FoldB::More(st, r2) && (!(st is Initial) || r2.len() > 0)),
+        Outcome::IoError => true,
+    }
+}
+
+/// [THEOREM C02/C10] One byte stream, two segmentations. Run 1 has been handed the prefix of length n1 when its
+/// `receive` returns, run 2 the prefix of length n2; end of stream is only ever observed after the whole stream was
+/// delivered (reader hypothesis). Reader errors aside, both runs return the SAME outcome, and what is left for the
+/// following calls (pending bytes + undelivered bytes) is the SAME byte string — so by induction the whole sequence of
+/// results, including the terminal outcome, is independent of the segmentation; and since the blocking and the async
+/// connection have this same postcondition, they agree with each other as well.
+pub proof fn theorem_segmentation_independence(stream: Seq<u8>, n1: int, n2: int, o1: Outcome, o2: Outcome, rest1: Seq<u8>, rest2: Seq<u8>, eof1: bool, eof2: bool)
+    requires
+        0 <= n1 <= stream.len(), 0 <= n2 <= stream.len(),
+        recv_ok(stream.subrange(0, n1), o1, rest1, eof1),
+        recv_ok(stream.subrange(0, n2), o2, rest2, eof2),
+        eof1 ==> n1 == stream.len(), eof2 ==> n2 == stream.len(),
+        !(o1 is IoError), !(o2 is IoError),
+    ensures
+        o1 == o2,
+        o1 is Resp ==> rest1 + stream.subrange(n1, stream.len() as int) == rest2 + stream.subrange(n2, stream.len() as int),
+{
+    let s1 = stream.subrange(0, n1); let t1 = stream.subrange(n1, stream.len() as int);
+    let s2 = stream.subrange(0, n2); let t2 = stream.subrange(n2, stream.len() as int);
+    assert(s1 + t1 =~= stream); assert(s2 + t2 =~= stream);
+    lemma_fold_stable(StateB::Initial, s1, t1);
+    lemma_fold_stable(StateB::Initial, s2, t2);
+    if eof1 { assert(t1 =~= Seq::<u8>::empty()); assert(s1 =~= stream); }
+    if eof2 { assert(t2 =~= Seq::<u8>::empty()); assert(s2 =~= stream); }
+    // the four decided/undecided combinations
+    match o1 {
+        Outcome::Resp(_) | Outcome::Invalid => {
+            // decided on a prefix: the full stream decides the same; run 2 either decided on a prefix too (same by stability)
+            // or saw EOF with the whole stream in hand, where the fold is decided, contradicting Closed/UnexpectedEof
+            match o2 {
+                Outcome::Closed => { lemma_fold_initial(stream); }
+                _ => {}
+            }
+        }
+        Outcome::Closed => {
+            match o2 { Outcome::Closed => {} _ => { lemma_fold_initial(stream); } }
+        }
+        Outcome::UnexpectedEof => {
+            match o2 { Outcome::Closed => { lemma_fold_initial(stream); } _ => {} }
+        }
+        Outcome::IoError => {}
+    }
+}
 } // verus!
